@@ -54,11 +54,13 @@ fn real_main(args: Vec<String>) -> i32 {
         }
         "run" => {
             let prop = &args[2];
-            let thorough = args[3] == "thorough";
+            let soak = args[3] == "soak";
+            let thorough = args[3] == "thorough" || soak;
             let seed: u64 = args[4].parse().unwrap_or(1);
             let dir = &args[5];
             std::panic::set_hook(Box::new(|_| {}));
             let mut c = ctx::Ctx::new(prop, thorough, seed, dir);
+            c.soak = soak;
             // corpus first
             let corpus = format!("{}/corpus/{}.ops", env!("CARGO_MANIFEST_DIR").trim_end_matches("/harness"), prop);
             if let Ok(f) = std::fs::read_to_string(&corpus) {
